@@ -1,6 +1,7 @@
 """C01 (expressions), C06 (scoping), C04 (literals and names): spec/ExprCheck.tla,
 ScopeCheck.tla, SqlLexCheck.tla."""
 import os
+from vlib import Inconclusive
 
 EXPR_FAMILIES = {
     # cfg -> (quick overrides, thorough overrides)
@@ -84,7 +85,43 @@ def run_c06(ctx):
     }
 
 
+def run_c04(ctx):
+    ctx.build_harness()
+    thorough = ctx.tier == "thorough"
+    neg = ctx.tlc("SqlLex", "sqllex_neg", workers=2, timeout=600, must_finish=False)
+    if neg["finished"]:
+        raise Inconclusive("negative control: the pinned quoting (no backslash escape) should violate StringsAreData")
+    ctx.tlc_runs.pop()
+    lex = ctx.tlc("SqlLex", "sqllex", overrides={"MaxContent": 4 if thorough else 3}, workers=16, timeout=6000)
+    nums = ctx.tlc("PqlLexer", "lex_numbers", overrides={"MaxLen": 6 if thorough else 4}, workers=8, timeout=6000)
+    ctx.harness("c04-replay", "--cases", lex["out"], "--numbers", nums["out"], "--seed", ctx.seed, "--reps", 3 if thorough else 2,
+                "--random", 200000 if thorough else 4000, "--out", "c04.json", timeout=7200)
+    ctx.load_result("c04.json")
+    os.unlink(lex["out"])
+    os.unlink(nums["out"])
+    return {
+        "exhaustive": True,
+        "assumptions": [
+            "TLC 1.8.0; the lexical rules of the target dialect as specified in spec/SqlLex.tla (standard quoting, ClickHouse backslash escapes)",
+            "the harness's SQL lexer (harness/sqllex.go) is checked against SqlLex.tla on every enumerated text and aborts the run on disagreement",
+            "the decode identity is required under the ClickHouse rules (the target dialect), invariance of the token structure "
+            "under both rule sets (under the standard rules a backslash is an ordinary character, so content tokens are not "
+            "compared by value there)",
+            "numeric values compared with math/big",
+        ],
+        "coverage": {
+            "rule": "design level: TLC checks for every content over a 17-symbol alphabet (all three quote kinds, backslash, comment "
+                    "markers, semicolon, NUL, escapes, non-ASCII, invalid UTF-8, bracket, comma) up to MaxContent that the quoted "
+                    "text is one token under both rule sets and decodes to the content; a negative control without the backslash "
+                    "escape must fail. Conformance: every content (two byte concretisations) and random contents up to 40 bytes "
+                    "are placed at 15 string positions and 16 name positions of real programs; the real SQL is lexed under both "
+                    "rule sets and compared token by token with the same program carrying a plain content. Non-trivial = non-empty content.",
+        },
+    }
+
+
 CHECKS = {
+    "C04": {"run": run_c04, "level": "model_checking"},
     "C01": {"run": run_c01, "level": "model_checking"},
     "C06": {"run": run_c06, "level": "model_checking"},
 }
